@@ -451,8 +451,12 @@ where
 
         let mut lookup_table = Vec::with_capacity(1 << PRECISION);
         let symbols = symbols.into_iter();
-        let mut cdf =
-            Vec::with_capacity(symbols.size_hint().0 + 1 + infer_last_probability as usize);
+        let mut cdf = Vec::with_capacity(
+            symbols
+                .size_hint()
+                .0
+                .wrapping_add(1 + infer_last_probability as usize),
+        );
         let mut symbols = accumulate_nonzero_probabilities::<_, _, _, _, _, PRECISION>(
             symbols,
             probabilities.into_iter(),
@@ -504,7 +508,7 @@ where
         );
 
         let mut lookup_table = Vec::with_capacity(1 << PRECISION);
-        let mut cdf = Vec::with_capacity(symbol_table.size_hint().0 + 1);
+        let mut cdf = Vec::with_capacity(symbol_table.size_hint().0.wrapping_add(1));
         for (symbol, left_sided_cumulative, probability) in symbol_table {
             let index = cdf.len().as_();
             debug_assert_eq!(left_sided_cumulative, lookup_table.len().as_());
